@@ -44,7 +44,7 @@ BUDGET = dict(quick=60, thorough=600)
 
 BASE = dict(W=2, NSplits=2, NRecs=2, KeyDigits=1221, OwnerDigits=12, B=1, MaxCkpt=2, MaxKills=2, KillJob=True,
             MaxLen=100000, StopAtDone=False, KillDilution=8, Dev_AssignUnsorted=False,
-            Rescale="@{}", G=0, GroupDigits=0, Overlap=False, PubDilution=1, Survive=False)   # no rescale, no overlapping publication: c01_deep.py
+            Rescale="@{}", G=0, GroupDigits=0, Overlap=False, PubDilution=1, Survive=False, Dev_LatePublication=False)   # no rescale, no overlapping publication: c01_deep.py
 
 
 def exhaustive(c, consts, label, timeout=1500):
